@@ -65,7 +65,7 @@ def cases(tier, seed):
                         # quick: every kind on H2 with all encodings; on the larger molecules JW + one other encoding
                         if mi > 0 and mp not in ("JW", MAPPINGS[1 + (len(out) % 3)]) and mp != "HCB":
                             continue
-                        if mi > 0 and kind in ("UCCGD", "UpCCGSD4", "ILC", "VSQS2", "VSQSnav", "QCC") and mp != "JW":
+                        if mi > 0 and kind in ("UCCGD", "UpCCGSD4", "ILC", "VSQS2", "VSQSnav", "VSQSnav2", "QCC") and mp != "JW":
                             continue
                     reps = 1 if tier == "quick" else 2
                     for r in range(reps):
